@@ -32,13 +32,29 @@ class ctype(dr.ComponentType):
     pass
 
 
-TYPES = ["plain", "combiner", "condition", "rule", "parser", "datasource"]
+TYPES = ["plain", "combiner", "condition", "rule", "parser", "datasource", "spec"]
+
+
+class RegistryPoint(object):
+    """a datasource that dr treats as a registry point (it recognises one by the name of its class): failures of the datasources it is built
+    on are recorded against it as well - before its own turn comes"""
+
+    def __init__(self, fn):
+        self.fn = fn
+        self.__name__ = self.__qualname__ = fn.__name__
+        self.__module__ = fn.__module__
+        self.__doc__ = None
+        self.__symx_order__ = getattr(fn, "__symx_order__", 0)
+
+    def __call__(self, *a, **k):
+        return self.fn(*a, **k)
+
 ROLES = ["required", "g1", "g2", "optional", "g1+g2"]
 
 
 def type_class(name):
     return {"plain": ctype, "combiner": plugins.combiner, "condition": plugins.condition, "rule": plugins.rule,
-            "parser": plugins.parser, "datasource": plugins.datasource}[name]
+            "parser": plugins.parser, "datasource": plugins.datasource, "spec": plugins.datasource}[name]
 
 
 def build_decl(roles, pos_order, g1_order, g2_order, opt_order):
@@ -85,7 +101,7 @@ class Scenario(object):
         self.calls = []
         self.deps = []
         for i in range(k):
-            def dep_body(_i=i):
+            def dep_body(*_broker, _i=i):
                 oc = dep_outcome(_i)
                 if oc == "value":
                     return dep_value(_i)
@@ -96,7 +112,7 @@ class Scenario(object):
                 raise ValueError("crash")
             dep_body.__name__ = dep_body.__qualname__ = "d%d" % i
             dep_body.__symx_order__ = i
-            self.deps.append(ctype()(dep_body))
+            self.deps.append((plugins.datasource() if tname == "spec" else ctype())(dep_body))
         pos = [[self.deps[j] for j in it] if isinstance(it, list) else self.deps[it] for it in decl]
         optional = [self.deps[j] for j in opt]
 
@@ -108,7 +124,9 @@ class Scenario(object):
         x.__name__ = x.__qualname__ = "x"
         x.__symx_order__ = 99
         cls = type_class(tname)
-        if tname == "parser":
+        if tname == "spec":
+            self.x = cls(*pos, optional=optional)(RegistryPoint(x))
+        elif tname == "parser":
             self.x = cls(*pos)(x)          # parser() takes no optional=
         else:
             self.x = cls(*pos, optional=optional)(x)
@@ -141,7 +159,7 @@ def judge(tname, decl, opt, k, present, values, enabled, sc, broker, eq=lambda a
             exp_args = [(e,) for e in v] if isinstance(v, list) else [(v,)]
             ok = len(sc.calls) == len(exp_args) and all(len(a) == 1 and eq(a[0], b[0]) for a, b in zip(sc.calls, exp_args))
             out.append(("args-bound", ok, "parser argument is not the first required dependency's value"))
-    elif tname == "datasource":
+    elif tname in ("datasource", "spec"):
         fires_expected = bool(enabled) and fires
         out.append(("invoked-iff", invoked == (1 if fires_expected else 0), "datasource invoked %d times" % invoked))
         if fires_expected and invoked == 1:
@@ -174,7 +192,8 @@ def judge(tname, decl, opt, k, present, values, enabled, sc, broker, eq=lambda a
     else:
         out.append(("missing-reported", sc.x not in broker.missing_requirements, "spurious missing-requirements report"))
         if not enabled:
-            out.append(("missing-reported", sc.x not in broker and sc.x not in broker.exceptions, "disabled component left a trace"))
+            # (a registry point also carries the failures of the datasources it is built on - C03 - whether or not it is enabled)
+            out.append(("missing-reported", sc.x not in broker and (tname == "spec" or sc.x not in broker.exceptions), "disabled component left a trace"))
     return out
 
 
